@@ -6,7 +6,9 @@ use super::parse_node::ParseNode;
 use crate::alpha::Errors;
 use crate::alpha::error;
 use crate::delta::lexer::BaseToken;
+use crate::delta::lexer::tokens::TokenId;
 use crate::delta::lexer::tokens::Tokens;
+use crate::delta::parser::MAX_NESTING_DEPTH;
 use crate::delta::parser::ParsingError;
 use crate::delta::parser::parse_node::ParseNode::UnpatchedListItem;
 use crate::delta::parser::parse_node::U24;
@@ -71,6 +73,7 @@ impl ParseTree
 			num_nodes: 0,
 			nodes: nodes.spare_capacity_mut(),
 			active_private_zone: None,
+			nesting: None,
 			declarations,
 			errors,
 		}
@@ -109,6 +112,10 @@ pub(super) struct ParseBuffer<'buffer>
 
 	active_private_zone: Option<NodeId>,
 
+	/// The first token and the depth of the outermost statement, expression
+	/// or type that is being parsed.
+	nesting: Option<(TokenId, usize)>,
+
 	declarations: &'buffer mut Vec<NodeId>,
 
 	errors: &'buffer mut Vec<ParsingError>,
@@ -132,6 +139,34 @@ impl<'buffer> ParseBuffer<'buffer>
 	pub(super) fn into_num_initialized_nodes(self) -> usize
 	{
 		self.num_nodes
+	}
+
+	/// Go one level deeper into nested statements, expressions and types.
+	/// The parser is recursive, so the depth has to be bounded.
+	/// If this succeeds, it must be followed by a call to `end_nested`.
+	pub(super) fn start_nested(
+		&mut self,
+		start: TokenId,
+	) -> Result<(), ParsingError>
+	{
+		let (outermost_start, depth) = self.nesting.unwrap_or((start, 0));
+		if depth >= MAX_NESTING_DEPTH
+		{
+			let end = start;
+			let start = outermost_start;
+			return Err(ParsingError::MaximumParseDepthExceeded { start, end });
+		}
+		self.nesting = Some((outermost_start, depth + 1));
+		Ok(())
+	}
+
+	pub(super) fn end_nested(&mut self)
+	{
+		self.nesting = match self.nesting
+		{
+			Some((start, depth)) if depth > 1 => Some((start, depth - 1)),
+			_ => None,
+		};
 	}
 
 	#[inline]
